@@ -87,6 +87,9 @@ class BasicConverter:
         loaded: dict[str, Any] = json.loads(data)
         args = [loaded.pop(name, self.args[name]) for name in self.args]
         kwargs = {name: loaded.pop(name, self.kwargs[name]) for name in self.kwargs}
+        for name, value in (*zip(self.args, args), *kwargs.items()):
+            if value is inspect.Parameter.empty:
+                raise ValueError(f"Missing argument '{name}' which has no default value.")
         if self.all_kwargs:
             kwargs.update(loaded)
         elif self.all_args:
